@@ -32,6 +32,18 @@ var mu sync.Mutex
 // cur is the active run, nil if none.
 var cur atomic.Pointer[Sched]
 
+// RunToken identifies the current run (0 outside any run); package-level state of the code under
+// test that the shims keep (sync.Pool) is partitioned by it, because objects created inside one
+// synctest bubble must not be used in another.
+func RunToken() uintptr {
+	if s := cur.Load(); s != nil {
+		return uintptr(s.runID)
+	}
+	return 0
+}
+
+var runSeq atomic.Uint64
+
 type grant struct {
 	aux  uint64
 	free bool
@@ -77,6 +89,7 @@ type PanicRec struct {
 
 // Sched is one run's scheduler state.
 type Sched struct {
+	runID    uint64 // unique per process (RunToken)
 	freeA    atomic.Bool // lock-free copy of free
 	Seed     uint64
 	tasks    map[uint64]*Task // by goroutine id
@@ -107,6 +120,7 @@ func NewSched(seed uint64) *Sched {
 		foreignN: map[string]int{},
 		SiteHits: map[string]int{},
 	}
+	s.runID = runSeq.Add(1)
 	dead.Store(false)
 	cur.Store(s)
 	return s
